@@ -29,6 +29,9 @@ type outcome struct {
 	newCtr     *ctr   // form/renew/refresh: the contract created if accepted
 	deposits   []proto4.AccountDeposit
 	pool       bool
+	// core's own validation of the request against the latest revision and the
+	// host's settings, evaluated when the server persisted something for it
+	validate func() error
 }
 
 var errAbort = errors.New("renter aborted")
@@ -148,6 +151,7 @@ func (sc *scen) doFree(mut string) *outcome {
 	rsigTerm := ""
 	o := &outcome{kind: "free", mut: mut, ct: ct, mustReject: mut != "none", newRoots: newRoots, setRoots: true,
 		expCost: cur(hp.RPCFreeSectorsCost(len(idxs)).RenterCost())}
+	o.validate = func() error { return req.Validate(w.hostKey.PublicKey(), old) }
 	var resp1 proto4.RPCFreeSectorsResponse
 	var resp3 proto4.RPCFreeSectorsThirdResponse
 	o.err = w.twoRound(proto4.RPCFreeSectorsID, &req, &resp1, func() (proto4.Object, string) {
@@ -221,6 +225,7 @@ func (sc *scen) doAppend(mut string) *outcome {
 	}
 	o := &outcome{kind: "append", mut: mut, ct: ct, mustReject: mut != "none", newRoots: newRoots, setRoots: true,
 		expCost: cur(usage.RenterCost())}
+	o.validate = func() error { return req.Validate(w.hostKey.PublicKey()) }
 	var second proto4.RPCAppendSectorsSecondResponse
 	rsigTerm := ""
 	var resp1 proto4.RPCAppendSectorsResponse
@@ -246,7 +251,7 @@ func (sc *scen) doAppend(mut string) *outcome {
 
 // ---- fund accounts ----------------------------------------------------------------
 
-var fundMuts = join([]string{"empty", "toolong", "zero-amount", "zero-account", "exceed", "overflow",
+var fundMuts = join([]string{"empty", "toolong", "zero-amount", "zero-account", "exceed", "overflow", "overflow-early", "overflow-early-2",
 	"underpay-first", "underpay-last", "unknown-cid", "renewed-cid", "replay"}, rsigMuts)
 
 func (sc *scen) depTerm(ds []proto4.AccountDeposit) string {
@@ -294,11 +299,26 @@ func (sc *scen) doFund(mut string) *outcome {
 		deps[sc.r.Intn(len(deps))].Account = proto4.Account{}
 	case "exceed":
 		deps[sc.r.Intn(len(deps))].Amount = old.RenterOutput.Value.Add(types.NewCurrency64(1))
-	case "overflow":
-		deps = []proto4.AccountDeposit{{Account: sc.accts[0], Amount: types.MaxCurrency}, {Account: sc.accts[1], Amount: types.MaxCurrency}}
+	case "overflow": // the running total overflows 128 bits at the last element
+		deps = []proto4.AccountDeposit{{Account: sc.accts[0], Amount: sc.smallAmount()}, {Account: sc.accts[1], Amount: types.MaxCurrency}}
+		if sc.r.Bool() {
+			deps[0].Amount = types.MaxCurrency
+		}
+	case "overflow-early": // ... before the last element: [max, x, y] wraps to x+y-1
+		deps = []proto4.AccountDeposit{{Account: sc.accts[0], Amount: types.MaxCurrency}, {Account: sc.accts[1], Amount: sc.smallAmount().Add(types.NewCurrency64(1))},
+			{Account: sc.accts[2], Amount: sc.smallAmount()}}
+	case "overflow-early-2": // ... [x, max, y]
+		deps = []proto4.AccountDeposit{{Account: sc.accts[0], Amount: sc.smallAmount().Add(types.NewCurrency64(1))}, {Account: sc.accts[1], Amount: types.MaxCurrency},
+			{Account: sc.accts[2], Amount: sc.smallAmount()}}
 	}
 	total, overflow := sumDeposits(deps)
 	signTotal := total
+	if overflow {
+		// what a host that adds modulo 2^128 would charge: the renter signs that revision
+		for _, d := range deps {
+			signTotal, _ = signTotal.AddWithOverflow(d.Amount)
+		}
+	}
 	switch mut {
 	case "underpay-first":
 		signTotal = total.Sub(deps[0].Amount)
@@ -306,12 +326,16 @@ func (sc *scen) doFund(mut string) *outcome {
 		signTotal = total.Sub(deps[len(deps)-1].Amount)
 	}
 	rev, _, rerr := proto4.ReviseForFundAccounts(old, signTotal)
-	if rerr != nil || overflow {
+	if rerr != nil {
 		rev = manualRev(old, old.FileMerkleRoot)
 	}
 	sig, sterm := sc.signRevision(ct, key, rev, mut)
 	req := proto4.RPCFundAccountsRequest{ContractID: id, Deposits: deps, RenterSignature: sig}
 	o := &outcome{kind: "fund", mut: mut, ct: ct, mustReject: mut != "none", expCost: cur(total), deposits: deps}
+	if overflow {
+		o.expCost = nil
+	}
+	o.validate = func() error { return req.Validate() }
 	var resp proto4.RPCFundAccountsResponse
 	o.err = w.oneRound(proto4.RPCFundAccountsID, &req, &resp)
 	o.term = fmt.Sprintf("(RFund %d %s %s)", absID, sc.depTerm(deps), sterm)
@@ -325,7 +349,7 @@ func (sc *scen) doFund(mut string) *outcome {
 // ---- replenish accounts / pools ----------------------------------------------------
 
 var replMuts = join([]string{"chal-other-target", "empty", "toolong", "zero-target", "zero-account", "exceed",
-	"nothing-due", "duplicate", "abort-close", "abort-error", "unknown-cid", "renewed-cid", "replay"}, chalMuts, rsigMuts)
+	"nothing-due", "duplicate", "overflow", "overflow-early", "abort-close", "abort-error", "unknown-cid", "renewed-cid", "replay"}, chalMuts, rsigMuts)
 
 func (sc *scen) doReplenish(pool bool, mut string) *outcome {
 	w := sc.w
@@ -356,7 +380,7 @@ func (sc *scen) doReplenish(pool bool, mut string) *outcome {
 			minBal = ledger[a]
 		}
 	}
-	target := maxBal.Add(sc.smallAmount())
+	target := satAdd(maxBal, sc.smallAmount())
 	if sc.r.Chance(1, 3) && !minBal.IsZero() && na > 1 {
 		// between the balances: some accounts need nothing
 		target = minBal.Add(types.NewCurrency64(1))
@@ -374,7 +398,7 @@ func (sc *scen) doReplenish(pool bool, mut string) *outcome {
 	case "zero-account":
 		accts[sc.r.Intn(len(accts))] = proto4.Account{}
 	case "exceed":
-		target = maxBal.Add(old.RenterOutput.Value).Add(types.NewCurrency64(1))
+		target = satAdd(satAdd(maxBal, old.RenterOutput.Value), types.NewCurrency64(1))
 	case "nothing-due":
 		if minBal.IsZero() {
 			mut = "none"
@@ -383,14 +407,24 @@ func (sc *scen) doReplenish(pool bool, mut string) *outcome {
 		}
 	case "duplicate":
 		accts = append(accts, accts[0])
+	case "overflow": // the deposits the host computes overflow 128 bits at the last account
+		accts = []proto4.Account{sc.accts[perm[0]], sc.accts[perm[1]]}
+		target = types.MaxCurrency
+	case "overflow-early": // ... before the last account
+		accts = []proto4.Account{sc.accts[perm[0]], sc.accts[perm[1]], sc.accts[perm[2]]}
+		target = types.MaxCurrency
 	}
 	// ground truth: what is due; an account listed twice is topped up once
 	due := types.ZeroCurrency
+	dueOverflow := false
 	planned := map[proto4.Account]types.Currency{}
 	for _, a := range accts {
-		if v, under := target.SubWithUnderflow(ledger[a].Add(planned[a])); !under {
-			due = due.Add(v)
-			planned[a] = planned[a].Add(v)
+		if v, under := target.SubWithUnderflow(satAdd(ledger[a], planned[a])); !under {
+			var o bool
+			if due, o = due.AddWithOverflow(v); o {
+				dueOverflow = true
+			}
+			planned[a] = satAdd(planned[a], v)
 		}
 	}
 	mkReq := func(accts []proto4.Account, target types.Currency, id types.FileContractID) *proto4.RPCReplenishAccountsRequest {
@@ -429,12 +463,20 @@ func (sc *scen) doReplenish(pool bool, mut string) *outcome {
 	req.ChallengeSignature = chal
 	mustReject := mut != "none" && mut != "nothing-due" && mut != "duplicate"
 	o := &outcome{kind: kind, mut: mut, ct: ct, mustReject: mustReject, expCost: cur(due), pool: pool}
+	if dueOverflow {
+		o.expCost = nil
+	}
+	o.validate = func() error { return req.Validate() }
 	var second proto4.RPCReplenishAccountsSecondResponse
 	rsigTerm := ""
 	var resp1 proto4.RPCReplenishAccountsResponse
 	var resp3 proto4.RPCReplenishAccountsThirdResponse
 	o.err = w.twoRound(rpcID, req, &resp1, func() (proto4.Object, string) {
-		total := resp1.TotalCost()
+		total, tover := sumDeposits(resp1.Deposits)
+		if tover || dueOverflow {
+			sc.failf("c08-replenish-quote-differs", "host quotes deposits whose total overflows 128 bits (ground truth overflows: %v)", dueOverflow)
+			return nil, "abort-close"
+		}
 		if !total.Equals(due) {
 			sc.failf("c08-replenish-quote-differs", "host quotes deposits of %v, ground truth says %v are due", total, due)
 		}
@@ -512,6 +554,7 @@ func (sc *scen) doRoots(mut string) *outcome {
 	sig, sterm := sc.signRevision(ct, key, rev, mut)
 	req := proto4.RPCSectorRootsRequest{Prices: hp, ContractID: id, RenterSignature: sig, Offset: off, Length: length}
 	o := &outcome{kind: "roots", mut: mut, ct: ct, mustReject: mut != "none", expCost: cur(hp.RPCSectorRootsCost(length).RenterCost())}
+	o.validate = func() error { return req.Validate(w.hostKey.PublicKey(), old) }
 	var resp proto4.RPCSectorRootsResponse
 	o.err = w.oneRound(proto4.RPCSectorRootsID, &req, &resp)
 	if o.err == nil && ct != nil && off+length <= n {
@@ -606,6 +649,15 @@ func (sc *scen) checkConsensus(ct *ctr, rev types.V2FileContract, what string, f
 	if err := consensus.ValidateV2Transaction(consensus.NewMidState(cs), txn); err != nil {
 		sc.failf("c08-consensus-rejects-revision", "%s: revision %d of contract %d is not acceptable to consensus at height %d: %v", what, rev.RevisionNumber, ct.abs, cs.Index.Height, err)
 	}
+}
+
+// satAdd is a + b, or the largest currency value if that does not fit: the harness
+// must keep running when the code under test has created absurd balances.
+func satAdd(a, b types.Currency) types.Currency {
+	if c, over := a.AddWithOverflow(b); !over {
+		return c
+	}
+	return types.MaxCurrency
 }
 
 func join(ls ...[]string) []string {
